@@ -4,6 +4,7 @@ import (
 	"errors"
 	"fmt"
 	"io"
+	"mime"
 	"net/http"
 	"regexp"
 	"strings"
@@ -216,7 +217,11 @@ func (d *documentLoader) loadDocumentFromHTTP(
 
 	doc = &ld.RemoteDocument{DocumentURL: res.Request.URL.String()}
 
+	// the media type without its parameters ("application/json; charset=utf-8")
 	contentType := res.Header.Get("Content-Type")
+	if mediaType, _, perr := mime.ParseMediaType(contentType); perr == nil {
+		contentType = mediaType
+	}
 	linkHeader := res.Header.Get("Link")
 
 	if len(linkHeader) > 0 {
